@@ -181,6 +181,14 @@ func (p *poller) Poll(timeoutMs int) (n int, err error) {
 		/* #nosec G103 -- the use of unsafe has been audited */
 		slot := *(**Slot)(unsafe.Pointer(&event.Data))
 
+		// The kernel reports a hang-up or an error regardless of the registered interest, and possibly without
+		// EPOLLIN/EPOLLOUT (e.g. the write end of a pipe is closed while we wait to read). The registered handlers must
+		// run, otherwise they never complete and the level-triggered event is reported forever. They get the EOF or
+		// the error from their next syscall.
+		if events&PollerEvent(syscall.EPOLLHUP|syscall.EPOLLERR) != 0 {
+			events |= slot.Events
+		}
+
 		if slot.Fd == p.waker.Fd() {
 			p.dispatch()
 			continue
